@@ -155,9 +155,58 @@ def _load(prop_id):
     return importlib.import_module("harness.props.%s" % prop_id)
 
 
-def _safe_eval(mod, case, acc):
+CASE_TIMEOUT = int(os.environ.get("VERIF_CASE_TIMEOUT", "900"))
+_IN_WORKER = False
+
+
+class CaseTimeout(BaseException):
+    """One case ran ~1000x longer than a case normally does: inconclusive (exit 2), the case is saved."""
+
+
+def _on_case_alarm(signum, frame):
+    raise CaseTimeout()
+
+
+def _worker_init():
+    """Pool workers: die with the parent (no orphans after a watchdog / kill), dump stacks on SIGUSR1,
+    per-case wall-clock guard."""
+    global _IN_WORKER
+    import faulthandler
+    import signal
+
     try:
-        res = mod.evaluate(case)
+        import ctypes
+
+        ctypes.CDLL("libc.so.6", use_errno=True).prctl(1, int(signal.SIGKILL))  # PR_SET_PDEATHSIG
+    except Exception:
+        pass
+    try:
+        faulthandler.register(signal.SIGUSR1, all_threads=True)
+    except Exception:
+        pass
+    signal.signal(signal.SIGALRM, _on_case_alarm)
+    _IN_WORKER = True
+
+
+def _safe_eval(mod, case, acc):
+    import signal
+
+    try:
+        if _IN_WORKER:
+            signal.alarm(CASE_TIMEOUT)
+        try:
+            res = mod.evaluate(case)
+        finally:
+            if _IN_WORKER:
+                signal.alarm(0)
+    except CaseTimeout:
+        os.makedirs(REPLAY_DIR, exist_ok=True)
+        path = os.path.join(REPLAY_DIR, "hang-%s-%s.json" % (getattr(mod, "ID", "?"), case_hash(case)))
+        with open(path, "w") as f:
+            json.dump({"property": getattr(mod, "ID", "?"), "bucket": "case_timeout", "case": case}, f, indent=1, default=str)
+        acc.errors.append("INCONCLUSIVE: one case exceeded the per-case wall-clock guard of %d s; saved as %s\n%s"
+                          % (CASE_TIMEOUT, path, traceback.format_exc()))
+        return
     except Exception:
         acc.errors.append(traceback.format_exc())
         return
@@ -215,7 +264,7 @@ def _fixed_shard(args):
 
 
 def _pool():
-    return mp.get_context("fork").Pool(NPROC)
+    return mp.get_context("fork").Pool(NPROC, initializer=_worker_init)
 
 
 # ------------------------------------------------------------------------------------------------
